@@ -179,6 +179,8 @@ def mk_enum(name: str, m: int):
     vals = [(f"{name}_A", 0)] if m > 0 else []
     if m > 1:
         vals.append((f"{name}_B", 1))
+    if m % 2 == 0 or m == 5:
+        return [(f"{name}_Z", m)] + vals      # the maximum is not always the last enumerator declared
     vals.append((f"{name}_Z", m))
     return vals
 
@@ -197,8 +199,9 @@ def single(fields, enums=None, structs=None, top="S") -> Schema:
 # ---------------------------------------------------------------- families
 SCALARS_QUICK = [("u", 1), ("u", 3), ("u", 8), ("u", 13), ("u", 64), ("i", 1), ("i", 7), ("i", 16), ("i", 64),
                  ("f32",), ("f64",)]
-ENUM_MAXES_QUICK = [1, 5, 255, 256]
-ENUM_MAXES_THOROUGH = [0, 1, 2, 3, 4, 7, 8, 15, 16, 127, 128, 255, 256, 65535, 65536, 2 ** 31 - 1]
+ENUM_MAXES_QUICK = [1, 5, 255, 256, 2 ** 49, 2 ** 49 + 1, 2 ** 53 - 1, 2 ** 63 - 1]
+ENUM_MAXES_THOROUGH = [0, 1, 2, 3, 4, 7, 8, 15, 16, 127, 128, 255, 256, 65535, 65536, 2 ** 31 - 1, 2 ** 49, 2 ** 49 + 1,
+                       2 ** 53 - 1, 2 ** 53 + 1, 2 ** 62 - 1, 2 ** 63 - 1, 2 ** 63, 2 ** 64 - 1]
 
 
 def _with_enum(t_or_max, enums):
@@ -239,7 +242,7 @@ def codec_family(tier: str, seed: int = 0, include_enums=True):
         kinds += ENUM_MAXES_THOROUGH if tier == "thorough" else ENUM_MAXES_QUICK
     for k in kinds:
         for pad in pads:
-            if tier == "quick" and pad not in (0, 3, 7):
+            if tier == "quick" and pad not in (0, 3, 7) and k not in (("f32",), ("f64",), ("str",)):
                 continue
             enums = {}
             t = _with_enum(k, enums)
@@ -269,6 +272,7 @@ def codec_family(tier: str, seed: int = 0, include_enums=True):
     # (5) declaration order != field-id order (ids fix the wire order)
     add(single([("a", 2, ("u", 3)), ("b", 0, ("i", 13)), ("c", 1, ("u", 8))]))
     add(single([("a", 1, ("str",)), ("b", 0, ("u", 5))]))
+    add(single([("a", 9007199254740993, ("u", 3)), ("b", 9007199254740992, ("i", 5)), ("c", 2 ** 31, ("u", 8))]))
     add(single([("a", 5, ("f32",)), ("b", 3, ("opt", ("u", 8))), ("c", 4, ("u", 1))]))
     add(Schema(structs=[("In", [("q", 1, ("i", 11)), ("p", 0, ("u", 5))]),
                         ("S", [("y", 1, ("u", 2)), ("x", 0, ("struct", "In"))])]))
@@ -311,3 +315,51 @@ def random_schema(rng, include_enums=True, fixed_only=False, depth=2, maxfields=
     ids = rng.sample(range(0, 8), n)
     fs = [(f"f{i}", ids[i], random_type(rng, depth, enums, structs, include_enums, fixed_only)) for i in range(n)]
     return Schema(structs=structs + [("S", fs)], enums=enums)
+
+
+def decoy_of(schema: Schema) -> Schema:
+    """Same struct / enum / field names, different widths and enum maxima: used to prime process-wide state
+    (caches keyed by names) before the schema under test is exercised."""
+    def ty(t):
+        k = t[0]
+        if k in ("u", "i"):
+            return (k, t[1] // 2 if t[1] > 1 else 2)
+        if k in ("arr",):
+            return ("arr", ty(t[1]), t[2])
+        if k in ("dyn", "opt"):
+            return (k, ty(t[1]))
+        return t
+    enums = {}
+    for en, vals in schema.enums.items():
+        m = max(v for _, v in vals)
+        m2 = 1 if m > 1 else 5
+        enums[en] = [(n, (m2 if v == m else min(v, m2))) for n, v in vals]
+        # keep values distinct
+        seen, out = set(), []
+        for n, v in enums[en]:
+            while v in seen:
+                v += 1
+            seen.add(v)
+            out.append((n, v))
+        enums[en] = out
+    structs = [(sn, [(fn, fid, ty(t)) for fn, fid, t in reversed(fs)]) for sn, fs in schema.structs]
+    return Schema(structs=structs, enums=enums, impls=schema.impls, top=schema.top)
+
+
+def zero_value(schema: Schema, t):
+    k = t[0]
+    if k in ("u", "i", "enum"):
+        return 0 if k != "enum" else min(v for _, v in schema.enums[t[1]])
+    if k in ("f32", "f64"):
+        return 0.0
+    if k == "str":
+        return "a"
+    if k == "arr":
+        return [zero_value(schema, t[1]) for _ in range(t[2])]
+    if k == "dyn":
+        return [zero_value(schema, t[1])]
+    if k == "opt":
+        return zero_value(schema, t[1])
+    if k == "struct":
+        return {fn: zero_value(schema, ft) for fn, _, ft in schema.struct(t[1])}
+    raise ValueError(t)
